@@ -22,6 +22,12 @@ if hasattr(sys, "set_int_max_str_digits"): sys.set_int_max_str_digits(0)
 U53 = Fraction(1, 2 ** 53)
 U24 = Fraction(1, 2 ** 24)
 
+_gf = {}
+def gfac53(K):
+    """gfac eps K = (1+eps)^K - 1 at eps = u/(1-u), u = 2^-53: IEEE double round-to-nearest is RelErr eps 1 (C01_standard_model)"""
+    if K not in _gf: _gf[K] = Fraction(2 ** 53, 2 ** 53 - 1) ** K - 1
+    return _gf[K]
+
 def dbl(u): return struct.unpack("d", struct.pack("Q", int(u)))[0]
 def frac(s):
     a, b = s.split("/"); return Fraction(int(a), int(b))
@@ -63,9 +69,9 @@ def run(ctx):
     ncases = 150 if ctx.tier == "quick" else 6000
     modes = ["shipped", "san"]
     evals = 0; nontriv = set(); dist = {}
-    worst_d = Fraction(0); worst_f = Fraction(0)
+    worst_d = Fraction(0); worst_f = Fraction(0); worst_K = [None]; worst_rel = [Fraction(0)]; kmin = [None]; kmax = [0]
     counts = {"grid_points": 0, "inside_points_compared_pointwise": 0, "convention_differs_points": 0, "unlisted_points": 0,
-              "B_lines": 0, "S_lines": 0, "T_lines": 0, "G_lines": 0, "pointwise_rejected_outside": 0, "idx_safe_cases": 0}
+              "cells_checked_against_proved_envelope": 0, "B_lines": 0, "S_lines": 0, "T_lines": 0, "G_lines": 0, "pointwise_rejected_outside": 0, "idx_safe_cases": 0}
     for mode in modes:
         exe = ctx.compile("c17_" + mode, ["c17_harness.cpp"], mode=mode, defines=["PHOTOSPLINE_INCLUDES_SPGLAM"],
                           repo_c=psvlib.FITTER_C, libs=psvlib.FITTER_LIBS)
@@ -170,17 +176,23 @@ def run(ctx):
                         ctx.violation(rep, "grideval lists index %r outside the ranges %r" % (idx, ranges))
                 pw = ip[2].split()[1:]
                 pts = mp[2]
-                K_d = 4 * sum(3 * d["order"] + 2 for d in g["dims"]) + 2 * 1
+                K_f = 4 * sum(3 * d["order"] + 2 for d in g["dims"]) + 2 * 1
                 nterm = 1
                 for d in g["dims"]: nterm *= d["order"] + 1
-                K_d += 2 * nterm + 8; K_f = K_d
+                K_f += 2 * nterm + 8
+                # proved envelope (C17_grideval_rounding_envelope_tie_partial): K = gridRoundCount dims + ndim + N(cell), all three from the driver / the case
+                K0 = int(mp[4][0].split("=")[1]) if len(mp) > 4 and mp[4] and mp[4][0].startswith("K0=") else None
+                if K0 is None or K0 != sum(5 * d["order"] + 1 for d in g["dims"]):
+                    broke("driver did not report PsV.gridRoundCount = Sum_d(5*order_d+1)"); continue
                 idxs = all_idx(ranges)
-                if len(pts) != 4 * len(idxs) or len(pw) != len(idxs): broke("line shape"); continue
+                if len(pts) != 6 * len(idxs) or len(pw) != len(idxs): broke("line shape"); continue
                 listed_model = parse_listed(mp[1], nd)
                 nan_seen = False
                 for q, idx in enumerate(idxs):
                     counts["grid_points"] += 1
-                    get, spec, spt, mag = (frac(z) for z in pts[4 * q:4 * q + 4])
+                    get, spec, spt, mag, maj = (frac(z) for z in pts[6 * q:6 * q + 5]); N = int(pts[6 * q + 5])
+                    K = K0 + nd + N
+                    if maj != mag: broke("majorant cell of PsV.gridEval on |coef| != Sum|coef|Prod|B| of the specification (instance of grideval_eq_spec + C17_basis_rounding: basis values >= 0)", point=[g["coords"][d][idx[d]] for d in range(nd)])
                     x = [g["coords"][d][idx[d]] for d in range(nd)]
                     if get != spec: broke("PsV.gridEval.get != PsV.gridSpec at Rat (instance of grideval_eq_spec)", point=x)
                     bitsl = ent.get(idx)
@@ -198,10 +210,17 @@ def run(ctx):
                             else:
                                 ctx.violation(dict(rep, grid_index=idx, x=x), "grideval returned a non-finite value at %r" % (x,))
                             continue
-                    tol = K_d * U53 * mag
+                    tol = gfac53(K) * maj
+                    if maj > 0: counts["cells_checked_against_proved_envelope"] += 1
                     if abs(iv - spec) > tol:
-                        ctx.violation(dict(rep, grid_index=idx, x=x, spec=str(spec), impl=float(iv)), "grideval value %r at %r differs from the exact tensor-product sum %r by more than %d*2^-53*%r" % (float(iv), x, float(spec), K_d, float(mag)))
-                    elif mag > 0: worst_d = max(worst_d, abs(iv - spec) / (U53 * mag))
+                        ctx.violation(dict(rep, grid_index=idx, x=x, spec=str(spec), impl=float(iv), K=K, N=N, majorant=str(maj)),
+                                      "grideval value %r at %r is outside the proved rounding envelope: differs from the exact tensor-product sum %r by %.3g*2^-53*majorant, more than gfac(u/(1-u), K=%d)*majorant, majorant = Sum|coef|Prod B = %r (K = Sum_d(5*order_d+1) + ndim + N, N = %d non-zero terms)"
+                                      % (float(iv), x, float(spec), float(abs(iv - spec) / (U53 * maj)) if maj > 0 else float("inf"), K, float(maj), N))
+                    elif maj > 0:
+                        r = abs(iv - spec) / (U53 * maj)
+                        if r > worst_d: worst_d = r; worst_K[0] = K
+                        worst_rel[0] = max(worst_rel[0], r / K)
+                        kmin[0] = K if kmin[0] is None else min(kmin[0], K); kmax[0] = max(kmax[0], K)
                     inside = all(d["knots"][0] < xv < d["knots"][-1] for d, xv in zip(g["dims"], x))
                     if not inside:
                         if pw[q] == "x": counts["pointwise_rejected_outside"] += 1
@@ -220,10 +239,10 @@ def run(ctx):
                     if pv is None:
                         ctx.violation(dict(rep, grid_index=idx, x=x), "pointwise evaluation is not finite at %r (grid value %r)" % (x, float(iv))); continue
                     counts["inside_points_compared_pointwise"] += 1
-                    tolp = (K_d * U53 + K_f * U24) * mag
+                    tolp = gfac53(K) * maj + K_f * U24 * mag
                     if abs(iv - pv) > tolp:
                         ctx.violation(dict(rep, grid_index=idx, x=x, grid=float(iv), pointwise=float(pv), exact=str(spec)),
-                                      "grideval %r and pointwise evaluation %r differ at %r (strictly inside the knot range) by more than (%d*2^-53+%d*2^-24)*%r" % (float(iv), float(pv), x, K_d, K_f, float(mag)))
+                                      "grideval %r and pointwise evaluation %r differ at %r (strictly inside the knot range) by more than (gfac(K=%d)+%d*2^-24)*%r" % (float(iv), float(pv), x, K, K_f, float(mag)))
                     elif mag > 0: worst_f = max(worst_f, abs(pv - spec) / (U24 * mag))
                 if not nan_seen and set(ent) != listed_model: broke("set of listed grid indices differs from the model's")
                 if ent: nontriv.add(c)
@@ -237,8 +256,11 @@ def run(ctx):
     ctx.coverage["input_distribution"] = dist
     ctx.coverage["counts"] = counts
     ctx.coverage["worst_grid_vs_exact_in_units_of_2^-53*mag"] = float(worst_d)
+    ctx.coverage["proved_envelope"] = {"theorem": "C17_grideval_rounding_envelope_tie_partial", "K": "Sum_d(5*order_d+1) + ndim + N(cell)",
+                                       "K_at_worst_cell": worst_K[0], "K_range_over_checked_cells": [kmin[0], kmax[0]],
+                                       "worst_ratio_|impl-exact|/(2^-53*majorant)": float(worst_d), "worst_ratio_over_K": float(worst_rel[0])}
     ctx.coverage["worst_pointwise_vs_exact_in_units_of_2^-24*mag"] = float(worst_f)
-    ctx.assumptions += ["rounding envelope: |grideval - exact| <= K*2^-53*Sum|coef|Prod|B| with K = 4*Sum_d(3*order_d+2) + 2*Prod_d(order_d+1) + 10 (double accumulation inside CHOLMOD, order unknown); pointwise float evaluation adds K*2^-24 of the same magnitude",
+    ctx.assumptions += ["rounding envelope of grideval: proved (C17_grideval_rounding_envelope_partial / _tie_partial) for the model run with any roundings of relative error eps: |rounded - exact| <= gfac(eps, K)*majorant at every cell, K = Sum_d(5*order_d+1) + N (+ ndim for the check), majorant = the cell of the same model on |coef| (= Sum|coef|Prod B, printed by the driver, as are N and Sum_d(5*order_d+1)); checked on every compared cell at eps = u/(1-u), u = 2^-53; assumed: no underflow/overflow (standard model), and that CHOLMOD adds the products of a cell up by recursive summation in some order, slice by slice (the model adds them when the cell is read; the + ndim covers the difference, argument at the theorem); pointwise float evaluation adds K_f*2^-24*Sum|coef|Prod|B| with the measured-envelope constant K_f = 4*Sum_d(3*order_d+2) + 2*Prod_d(order_d+1) + 10 (C01 proves its own envelope)",
                         "CHOLMOD (ssmult, triplet/sparse conversion) is modelled by its mathematical meaning: equal (row,col) contributions are added, exact zeros of the basis matrix are not stored",
                         "int / unsigned / long index arithmetic of slicemultiply: proved exact (no wrap-around, no zero divisor) whenever the flattened section has < 2^31 columns (slicemultiply_int_arith_exact, grideval_int_arith_exact about the C-typed model PsV.sliceMultiplyC); the decidable hypothesis is evaluated on every generated case; still assumed: the entry counter `int i < a->rows` (needs fewer than 2^31 stored entries) and CHOLMOD's internal index arithmetic",
                         "ownership of the C wrapper's result is released through the C++ type in the harness (ndsparse_destroy deletes through the C base type: C18's finding)"]
